@@ -190,6 +190,8 @@ def _names_in_reports(s, st):
                 warnings.simplefilter("ignore")
                 out[key] = fn()
         except Exception as e:
+            if isinstance(e, drv_solve.HarnessError) or drv_solve.raised_by_harness(e):
+                raise drv_solve.HarnessError("%s: %s: %s" % (key, type(e).__name__, e)) from e
             out[key] = ["exc:" + type(e).__name__]
     run("solve", lambda: sorted(set(s.solve()[lambda d: d["Type"] != ""]["Component"])))
     run("params", lambda: sorted(s.params()["Component"]))
